@@ -47,7 +47,7 @@ def _run_unit(arg):
     modname, idx = arg
     t0 = time.time()
     try:
-        from . import execu
+        from . import execu, omap, stdmodels  # noqa: F401  (register theories)
         mod = importlib.import_module(modname)
         unit = mod.UNITS[idx]
         res = execu.explore(unit, max_paths=getattr(unit, "max_paths", 4000))
